@@ -62,6 +62,9 @@ var guardSpecs = []guardSpec{
 	{"callSyncGuard", "pkg/controller.v1beta1/suggestion/suggestion_controller.go", "ReconcileSuggestion", "r.SyncAssignments(", rsAtoms, rsParams},
 	{"markExpFailedBySugGuard", "pkg/controller.v1beta1/experiment/experiment_controller.go", "ReconcileSuggestions", "instance.MarkExperimentStatusFailed(", rsugAtoms, rsugParams},
 	{"callUpdateSuggestionGuard", "pkg/controller.v1beta1/experiment/experiment_controller.go", "ReconcileSuggestions", "r.UpdateSuggestion(suggestion)", rsugAtoms, rsugParams},
+	{"updNotRestartableGuard", "pkg/webhook/v1beta1/experiment/validator/validator.go", "ValidateExperiment", `Child("resumePolicy"), instance.Spec.ResumePolicy, msg)`, updAtoms, updParams},
+	{"updMaxNotAboveGuard", "pkg/webhook/v1beta1/experiment/validator/validator.go", "ValidateExperiment", `"must be greater than status.trials count"`, updAtoms, updParams},
+	{"updForbiddenGuard", "pkg/webhook/v1beta1/experiment/validator/validator.go", "ValidateExperiment", "field.Forbidden(specPath", updAtoms, updParams},
 	{"sugRestartGuard", "pkg/controller.v1beta1/experiment/experiment_controller_util.go", "restartSuggestion", "original.DeepCopy()",
 		map[string]string{"err != nil": "getFailed", "errors.IsNotFound(err)": "notFound", "original.IsCompleted()": "sugCompleted", "original.IsRestarting()": "sugRestarting", "original.IsSucceeded()": "sugSucceeded", "instance.IsRestarting()": "expRestarting"},
 		[]string{"getFailed", "notFound", "sugCompleted", "sugRestarting", "sugSucceeded", "expRestarting"}},
@@ -122,6 +125,20 @@ var rsugAtoms = map[string]string{
 }
 var rsugParams = []string{"failed1", "failed2", "sugPresent", "sugFailed", "requestsDiffer", "moreAssignmentsThanTrials", "sugRestarting"}
 
+var updAtoms = map[string]string{
+	"oldInst != nil": "isUpdate", "isRestarting": "specChanged", "oldInst.IsCompleted()": "oldCompleted",
+	"experimentutil.IsCompletedExperimentRestartable(oldInst)": "oldRestartable",
+	"instance.Spec.MaxTrialCount != nil":                       "maxSet", "*instance.Spec.MaxTrialCount <= oldInst.Status.Trials": "maxNotAboveTrials",
+	"equality.Semantic.DeepEqual(instance.Spec, oldInst.Spec)": "specEqual#",
+	"namingConvention.MatchString(instance.Name)":              "nameOk", "len(instance.Name) > 40": "nameLong",
+	"instance.Spec.MaxFailedTrialCount != nil": "maxFailedSet", "*instance.Spec.MaxFailedTrialCount < 0": "maxFailedNegative",
+	"*instance.Spec.MaxTrialCount <= 0": "maxNotPositive", "instance.Spec.ParallelTrialCount != nil": "parSet",
+	"*instance.Spec.ParallelTrialCount <= 0": "parNotPositive", "*instance.Spec.MaxFailedTrialCount > *instance.Spec.MaxTrialCount": "maxFailedAboveMax",
+	"*instance.Spec.ParallelTrialCount > *instance.Spec.MaxTrialCount": "parAboveMax",
+}
+var updParams = []string{"isUpdate", "specChanged", "oldCompleted", "oldRestartable", "maxSet", "maxNotAboveTrials", "specEqual1", "specEqual2",
+	"nameOk", "nameLong", "maxFailedSet", "maxFailedNegative", "maxNotPositive", "parSet", "parNotPositive", "maxFailedAboveMax", "parAboveMax"}
+
 var verdictAtoms = map[string]string{
 	"jobStatus.Condition == trialutil.JobSucceeded": "jobSucceeded", "jobStatus.Condition == trialutil.JobFailed": "jobFailed",
 	"jobStatus.Condition == trialutil.JobRunning": "jobRunning",
@@ -138,8 +155,22 @@ type guardWalker struct {
 	fset        *token.FileSet
 	spec        guardSpec
 	unknown     []string
+	unknownCut  int // conditions met after the last call site do not count
 	unsupported []string
 	found       []string
+}
+
+// atom: the name of a known condition; a name ending in `#` is numbered by occurrence (`err != nil` after different calls)
+func (g *guardWalker) atom(src string) (string, bool) {
+	a, ok := g.spec.atoms[src]
+	if ok && strings.HasSuffix(a, "#") {
+		if g.occ == nil {
+			g.occ = map[string]int{}
+		}
+		g.occ[a]++
+		return fmt.Sprintf("%s%d", strings.TrimSuffix(a, "#"), g.occ[a]), true
+	}
+	return a, ok
 }
 
 func (g *guardWalker) cond(e ast.Expr) string {
@@ -147,20 +178,11 @@ func (g *guardWalker) cond(e ast.Expr) string {
 	if id, ok := e.(*ast.Ident); ok {
 		if _, known := g.spec.atoms[id.Name]; !known {
 			if rhs, ok := g.binds[id.Name]; ok {
-				return "(" + boolToLean(g.fset, rhs, g.spec.atoms, &g.unknown) + ")"
+				return "(" + boolToLeanF(g.fset, rhs, g.atom, &g.unknown) + ")"
 			}
 		}
 	}
-	// an atom whose name ends in `#` is numbered by occurrence (`err != nil` after different calls)
-	src := nodeSrc(g.fset, e)
-	if a, ok := g.spec.atoms[src]; ok && strings.HasSuffix(a, "#") {
-		if g.occ == nil {
-			g.occ = map[string]int{}
-		}
-		g.occ[a]++
-		return fmt.Sprintf("%s%d", strings.TrimSuffix(a, "#"), g.occ[a])
-	}
-	return boolToLean(g.fset, e, g.spec.atoms, &g.unknown)
+	return boolToLeanF(g.fset, e, g.atom, &g.unknown)
 }
 
 func singleBinds(body *ast.BlockStmt) map[string]ast.Expr {
@@ -234,7 +256,7 @@ func (g *guardWalker) walk(stmts []ast.Stmt, pc string) string {
 		switch x := st.(type) {
 		case *ast.IfStmt:
 			if x.Init != nil && g.containsCall(x.Init) {
-				g.found = append(g.found, cur)
+				g.found, g.unknownCut = append(g.found, cur), len(g.unknown)
 			}
 			c := g.cond(x.Cond)
 			nc := "(!" + c + ")"
@@ -257,12 +279,12 @@ func (g *guardWalker) walk(stmts []ast.Stmt, pc string) string {
 			}
 		case *ast.ReturnStmt:
 			if g.containsCall(x) {
-				g.found = append(g.found, cur)
+				g.found, g.unknownCut = append(g.found, cur), len(g.unknown)
 			}
 			return "false"
 		default:
 			if g.containsCall(x) {
-				g.found = append(g.found, cur)
+				g.found, g.unknownCut = append(g.found, cur), len(g.unknown)
 			}
 		}
 	}
@@ -291,7 +313,7 @@ func extractGuards(repo, out string) error {
 		}
 		fmt.Fprintf(&b, "\n-- %s: reach condition of `%s` in %s (%s)\n", sp.name, sp.call, sp.fn, sp.file)
 		fmt.Fprintf(&b, "def %sSites : Nat := %d\n", sp.name, len(g.found))
-		fmt.Fprintf(&b, "def %sUnknown : List String := [%s]\n", sp.name, strings.Join(quoteAll(append(g.unknown, g.unsupported...)), ", "))
+		fmt.Fprintf(&b, "def %sUnknown : List String := [%s]\n", sp.name, strings.Join(quoteAll(append(g.unknown[:g.unknownCut], g.unsupported...)), ", "))
 		fmt.Fprintf(&b, "def %s (%s unknownAtom : Bool) : Bool :=\n  %s\n", sp.name, strings.Join(sp.params, " "), body)
 	}
 	b.WriteString("\nend Katib.Gen\n")
